@@ -191,6 +191,40 @@ def _install_monitoring():
 
 
 # ---------------------------------------------------------------------------------------
+# formatter faults: black.format_str is mypyc-compiled (no code object) -> wrapped as attribute
+
+_BF = os.environ.get("VERIF_BLACK_FAULT")  # "<kind>[:<call index>]" kind in raise|garbage|empty
+
+
+def _install_black_fault():
+    if not _BF:
+        return
+    import black
+
+    kind, _, idx = _BF.partition(":")
+    idx = int(idx) if idx else None
+    real = black.format_str
+    calls = [0]
+
+    def faulty(src, *, mode):
+        if not _fp_active[0] and _phase[0] != "sessionfinish":
+            return real(src, mode=mode)
+        calls[0] += 1
+        if idx is not None and calls[0] != idx:
+            return real(src, mode=mode)
+        _emit("black_fault", kind=kind, call=calls[0])
+        if kind == "raise":
+            raise RuntimeError("injected black failure")
+        if kind == "garbage":
+            return "GARBAGE((( not python"
+        if kind == "empty":
+            return ""
+        return real(src, mode=mode)
+
+    black.format_str = faulty
+
+
+# ---------------------------------------------------------------------------------------
 # pytest hooks
 
 
@@ -203,6 +237,7 @@ def pytest_configure(config):
     except Exception:  # pragma: no cover
         config._verif_stack_depth = None
     _install_monitoring()
+    _install_black_fault()
 
 
 def pytest_collection_finish(session):
